@@ -529,7 +529,7 @@ def run_family(ctx, prop):
     # ---- (B) conformance
     pool = rnd.choice(ALL_POOLS)
     mpool = rnd.choice(PREFIX_FREE_POOLS)
-    glimit = "5000" if quick else ("1500" if smoke else "0")
+    glimit = ("5000" if prop == "C08" else "4000") if quick else ("1500" if smoke else "0")
     g2limit = "1500" if smoke else "30000"
     # thorough: every edge of the h, l and s graphs; the two big graphs (kv, z: ~300 000 edges each) are
     # covered by a seeded walk of 120 000 steps per run (different edges for different seeds)
@@ -555,7 +555,7 @@ def run_family(ctx, prop):
     nw = 1 if (quick or smoke) else 8
 
     def R(x):       # number of random walks of a stage (C09 / C10 run more stages: a bit smaller each in quick)
-        return str(max(2, int(x * nw * (0.75 if (quick and prop != "C08") else 1))))
+        return str(max(2, int(x * nw * (0.6 if (quick and prop != "C08") else 1))))
     if prop == "C08":
         walks = [
             ("rand-pebble-wc-noexp", "wc", ["-eng", "pebble", "-policy", "wc", "-random", R(30), "-len", "200", "-expiry=false", "-dup",
